@@ -13,7 +13,7 @@ from mc.canon import short
 
 ID = 'C16'
 LEVEL = 'model_checking'
-RULE = ('E2 explicit-state exploration of library state: events (50: '
+RULE = ('E2 explicit-state exploration of library state: events (53: '
         'construct with defaults, marshal, unmarshal valid, unmarshal '
         'invalid, failing constructions, the 3 toggles, a change of the '
         'caller\'s decimal context, call-then-mutate-the-result composites) applied to a freshly imported pamqp; state = '
@@ -22,7 +22,7 @@ RULE = ('E2 explicit-state exploration of library state: events (50: '
         '(closes at 2 states on the unchanged tree: switch off/on; the state '
         'count is reported, never judged) plus every history of depth <= 2 '
         'and every a;b;a history and every depth-3 history over a core of '
-        '16 events (thorough: every history of depth 3 over all 50) '
+        '16 events (thorough: every history of depth 3 over all 53) '
         'without deduplication, each rebuilt from a fresh '
         'import; oracle: every event\'s canonical result equals the result '
         'of that event alone in a fresh interpreter (one subprocess per '
